@@ -8,9 +8,24 @@ def _regen_consts(ctx):
 
 REGEN = {'consts': _regen_consts}
 
+def _extra(ctx, spec):
+    """exhaustive parts of the tie, counted from the harness statistics of this run"""
+    d = ctx.cov.get('families', {}).get('value', {}).get('distribution', {})
+    u = ctx.cov.get('families', {}).get('utf8', {}).get('distribution', {})
+    ctx.cov['exhaustive'] = {
+        'every 8-bit scalar of bool/int8/uint8 x both byte orders x aligned and foreign base types (ops)': d.get('scalar8', 0),
+        'every 16-bit scalar of int16/uint16 x both byte orders (ops)': d.get('scalar16', 0),
+        'every value type x every base-type byte 0..255 (ops)': d.get('type-x-basetype', 0),
+        'every array byte length 0..264 per slice type x both byte orders (ops)': d.get('array', 0) + d.get('array-order-sensitive', 0),
+        'UnmarshalValue: every base-type byte x length 0..9 x array x bool flags (ops)': d.get('unm-grid', 0),
+        'every 1- and 2-byte string through DecodeRune/Valid/utf8String (blocks)': u.get('exhaustive-2', 0),
+    }
+
+
 PROP = dict(
     level='proof',
     regen=['consts'],
+    extra=_extra,
     theorems=['Fit.C06.C06_size_eq_len', 'Fit.C06.C06_marshal_total', 'Fit.C06.C06_marshal_bytes', 'Fit.C06.C06_unmarshal_marshal_partial', 'Fit.C06.C06_unmarshal_marshal_full_fails', 'Fit.C06.C06_norm_id', 'Fit.C06.C06_norm_bool', 'Fit.C06.C06_norm_string', 'Fit.C06.C06_norm_strings', 'Fit.C06.C06_unmarshal_guard', 'Fit.C06.C06_unmarshal_no_panic', 'Fit.C06.C06_unmarshal_err_iff', 'Fit.C06.C06_tag', 'Fit.C06.C06_no_cross_type', 'Fit.C06.C06_any_roundtrip', 'Fit.C06.C06_align_by_type'],
     families=[dict(name='value', spec=True, prop=True), dict(name='utf8')],
     trusted_base=STD_TRUST + [
